@@ -35,6 +35,18 @@ Definition check_history (cs : Z * Z * snap * list (op * snap)) : bool :=
   let '(mb, bk, s0, l) := cs in
   snap_ok (start mb bk) s0 && follow (start mb bk) l.
 
+(* the same when the files are observed only after some of the operations *)
+Fixpoint follow_opt (st : outcome) (l : list (op * option snap)) : bool :=
+  match l with
+  | [] => true
+  | (o, s) :: r =>
+    let st' := step st o in
+    (match s with Some s => snap_ok st' s | None => true end) && follow_opt st' r
+  end.
+
+Definition check_history_opt (cs : Z * Z * list (op * option snap)) : bool :=
+  let '(mb, bk, l) := cs in follow_opt (start mb bk) l.
+
 (* all histories over an alphabet up to a depth, as a tree sharing prefixes *)
 Inductive tree := Node (s : snap) (kids : list (op * tree)).
 
